@@ -178,6 +178,7 @@ def handleMem (s : Mem) : List String → Option (Mem × String)
       some (s2, outStr o')
     | none => none
   | ["mrdbc"] => let (s', o) := s.step .rdbClose; some (s'.settle, outStr o)
+  | ["mrdbf"] => let (s', o) := s.step .rdbFail; some (s'.settle, outStr o)
   | ["maofw", a] => let (s', o) := s.step (.newAofWriter a.toNat!); some (s'.settle, outStr o)
   | ["maofa", h] =>
     match Hex.decode h with
